@@ -148,6 +148,17 @@ def job(cfg, tmp):
         kw = [kwargs_of(cfg, 0, "RWMH")] * n          # a list that repeats one dictionary object
     else:
         kw = [kwargs_of(cfg, i, cfg["kinds"][i]) for i in range(n)]
+    if cfg.get("init_in_kwargs") and cfg["init_mode"] != "none":
+        # the starting models travel inside the keyword dictionaries (initial_model is a keyword of sample() like any other); the controller's own
+        # initial_model argument is left unset
+        if cfg["init_mode"] == "list":
+            kw = [dict(k) for k in kw] if isinstance(kw, list) else [dict(kw or {}) for _ in range(n)]
+            for i in range(n):
+                kw[i]["initial_model"] = np.array(cfg["inits"][i]).reshape(-1, 1)
+        else:
+            i0 = np.array(cfg["inits"][0]).reshape(-1, 1)
+            kw = [dict(k, initial_model=i0.copy()) for k in kw] if isinstance(kw, list) else dict(kw or {}, initial_model=i0)
+        init = None
     args_before = repr((init, kw))
     ctrl = S.ParallelSampleSMP(seed=cfg["controller_seed"])
     ctrl.sample(samplers, files, posts, overwrite_existing_files=True, proposals=cfg["P"], exchange=False, initial_model=init, kwargs=kw)
@@ -160,7 +171,7 @@ def job(cfg, tmp):
     for i, (s, p) in enumerate(zip(samplers, posts)):
         fn = os.path.join(tmp, f"reuse_{i}.h5")
         try:
-            extra = {"mass_matrix": kw["mass_matrix"]} if cfg.get("shared_mass") else {}
+            extra = {"mass_matrix": (kw[0] if isinstance(kw, list) else kw)["mass_matrix"]} if cfg.get("shared_mass") else {}
             s.sample(fn, p, initial_model=init_of(cfg, i), proposals=cfg["P"], overwrite_existing_file=True,
                      **{**{"disable_progressbar": True}, **standalone_kwargs(cfg, i, cfg["kinds"][i]), **extra})
             reuse.append(read_samples(fn))
@@ -204,8 +215,11 @@ def run(tier, seed):
             cfg = make_config(rnd, n, pre_run=(ci % 3 == 2), layout=LAYOUTS[ci] if ci < len(LAYOUTS) else None)
             sub = os.path.join(tmp, f"c{ci}")
             os.makedirs(sub)
+            cfg["init_in_kwargs"] = cfg["init_mode"] != "none" and (ci in (1, 2) or random.Random(cfg["controller_seed"] ^ 7).random() < 0.25)
             status, res = supervised(job, (cfg, sub), timeout=120 if n <= 16 else 300, tmpdir=tmp)
-            stim = {k: cfg[k] for k in ("n", "kinds", "init_mode", "kw_mode", "shared_mass", "kw_overrides", "P", "thin", "pre_run")}
+            stim = {k: cfg[k] for k in ("n", "kinds", "init_mode", "kw_mode", "shared_mass", "kw_overrides", "P", "thin", "pre_run", "init_in_kwargs")}
+            if cfg["init_in_kwargs"]:
+                st.count("initial models inside the kwargs")
             st.case(dict(stim, seeds=cfg["seeds"]), nontrivial=(n >= 2 and (cfg["init_mode"] == "list" or cfg["kw_mode"] == "list")),
                     sample=stim if len(st.samples) < 3 else None)
             st.count(f"n={'1' if n == 1 else '2-6' if n <= 6 else '>6'}")
